@@ -555,3 +555,46 @@ Definition decor_present (T : vtables) (dc : N * N * N) : bool :=
   let '(iid, need_if, need_af) := dc in
   let '(iflags, avx, _, _) := nth (N.to_nat iid) (vt_inst T) (0, 0, 0, 0) in
   (iid <? vt_count T) && (N.land iflags need_if =? need_if) && (N.land avx need_af =? need_af).
+
+(* ------------------------------------------------------------------ representative operands generated FROM a database row (one per explicit operand kind) *)
+Definition lowest_kind (need : N) : N :=       (* position of the lowest operand-kind bit of `need` (48 = none) *)
+  let k := N.land need OF_OpMask in
+  match find (fun p => N.testbit k p) kind_positions with Some p => p | None => 48 end.
+
+Definition log2_fixed (fixed : N) : N := match find (fun p => N.testbit fixed p) (nseq_v 0 8) with Some p => p | None => 0 end.
+
+Definition rep_operand (x64 : bool) (dbop : N * N * bool) : operand :=
+  let '(need, fixed, _) := dbop in
+  let p := lowest_kind need in
+  let rid := if fixed =? 0 then 3 else log2_fixed fixed in
+  let base_t := if x64 then RT_Gp64 else RT_Gp32 in
+  let off := if test need OF_FlagMemBase then 0%Z else 16%Z in
+  let mem (sz : N) := OMem sz base_t 5 0 0 off 0 0 false in
+  let vmem (it : N) := OMem 0 base_t 5 it 5 16%Z 0 0 false in
+  if p <? 16 then
+    (* register kinds, in the bit order of InstDB::OpFlags: gpb_lo gpb_hi gpw gpd gpq xmm ymm zmm mm k sreg creg dreg st bnd tmm *)
+    OReg (nth (N.to_nat p) [2; 3; 4; 5; 6; 11; 12; 13; 28; 16; 25; 26; 27; 29; 30; 17] 0) (if (p =? 14) && (fixed =? 0) then 1 else rid)
+  else if p <? 29 then
+    (* memory sizes from bit 18: unspecified 8 16 32 48 64 80 128 256 512 1024 *)
+    mem (nth (N.to_nat (p - 18)) [0; 1; 2; 4; 6; 8; 10; 16; 32; 64; 128] 0)
+  else if p <? 36 then
+    (* vm32x vm32y vm32z vm64x vm64y vm64z from bit 30 *)
+    vmem (nth (N.to_nat (p - 30)) [11; 12; 13; 11; 12; 13] 0)
+  else if p <? 46 then
+    (* immediates from bit 36: i4 u4 i8 u8 i16 u16 i32 u32 i64 u64 *)
+    OImm (nth (N.to_nat (p - 36)) [5; 5; 69; 69; 4660; 4660; 305419896; 305419896; 1311768467463790320; 1311768467463790320]%Z 0%Z)
+  else OLabel.
+
+Definition rep_ops (x64 : bool) (row : dbrow) : list operand := map (rep_operand x64) (explicit_ops (dr_ops row)).
+
+(* the premises of the row-level acceptance theorem, evaluated on the representative operands of a row *)
+Definition rep_premises (T : vtables) (x64 : bool) (row : dbrow) : bool :=
+  let '(_, avx, _, _) := nth (N.to_nat (dr_inst row)) (vt_inst T) (0, 0, 0, 0) in
+  match xlat_all T x64 false avx (rep_ops x64 row) init_xstate with
+  | inr (st, rest) => forallb is_none rest && fits_all (explicit_ops (dr_ops row)) (xs_sigs st) && (mode_stage x64 0 st =? E_Ok)
+  | inl _ => false
+  end.
+
+Definition rep_premises_both (T : vtables) (row : dbrow) : bool :=
+  (if test (dr_mode row) MODE_X86 then rep_premises T false row else true) &&
+  (if test (dr_mode row) MODE_X64 then rep_premises T true row else true).
